@@ -56,6 +56,8 @@ def make_table(spec, repo_root):
             raise FileNotFoundError(fam)
         stride = int(spec.get("stride", 1))
         out = df.iloc[::stride].reset_index(drop=True).copy()
+        if spec.get("reverse"):
+            out = out.iloc[::-1].reset_index(drop=True)   # rows in descending pressure order
         if spec.get("as") == "dict":
             return {c: out[c].to_numpy().copy() for c in out.columns}
         return out
@@ -103,6 +105,12 @@ def make_table(spec, repo_root):
     else:
         raise ValueError(fam)
     cols = {k: np.array(v, dtype=float) for k, v in cols.items()}
+    if fam == "gas" and spec.get("pp_base_frac"):
+        # pseudopressure referenced to a base pressure inside the table: negative below it
+        pb = p_lo + float(spec["pp_base_frac"]) * (p_hi - p_lo)
+        cols["pseudopressure"] = cols["pseudopressure"] - float(np.interp(pb, cols["pressure"], cols["pseudopressure"]))
+    if spec.get("reverse"):
+        cols = {k: v[::-1].copy() for k, v in cols.items()}   # rows in descending pressure order
     if spec.get("as") == "frame":
         import pandas as pd
 
@@ -161,6 +169,7 @@ def draw_fluid_spec(rng, repo_root, families=None, allow_csv=True):
     if fam.startswith("csv_"):
         spec["stride"] = rng.choice([1, 3, 7, 20])
         spec["as"] = rng.choice(["frame", "frame", "dict"])
+        spec["reverse"] = rng.random() < 0.1
         df = _load_csv(repo_root, fam)
         p = df["pressure"].to_numpy()[:: spec["stride"]]
         p_lo, p_hi = float(p[0]), float(p[-1])
@@ -178,9 +187,13 @@ def draw_fluid_spec(rng, repo_root, families=None, allow_csv=True):
         spec["pgrid"] = rng.choice(["lin", "lin", "quad"])
         spec["as"] = rng.choice(["dict", "frame"])
         spec["with_density"] = rng.random() < 0.8
+        spec["reverse"] = rng.random() < 0.1
+        if fam == "gas" and rng.random() < 0.4:
+            spec["pp_base_frac"] = round(rng.uniform(0.02, 0.1), 3)
         p_lo, p_hi = spec["p_lo"], spec["p_hi"]
         tmp = dict(spec)
         tmp["as"] = "dict"
+        tmp["reverse"] = False
         nodes = make_table(tmp, repo_root)["pressure"]
     # initial pressure: on a node, or strictly inside the table
     if rng.random() < 0.3:
@@ -196,6 +209,9 @@ def draw_fluid_spec(rng, repo_root, families=None, allow_csv=True):
 def draw_pf(rng, fspec):
     """A frac-face pressure inside the table and below p_i."""
     p_lo, p_i = fspec["_p_lo"], fspec["p_i"]
+    if fspec.get("pp_base_frac") and rng.random() < 0.5:
+        # below the pseudopressure base: the scaled frac-face pseudopressure is negative
+        return float(p_lo) if rng.random() < 0.5 else round(float(p_lo + rng.random() * fspec["pp_base_frac"] * (fspec["_p_hi"] - p_lo)), 3)
     u = rng.random()
     if u < 0.03:
         return float(p_i)            # no drawdown at all: frac-face pressure equals initial pressure
@@ -289,6 +305,17 @@ def same_length_variant(rng, grid, lattice=False):
             return g
     t = np.array(grid["t"]) * 1.5 + 0.25
     return {"family": "scaled", "t": [float(v) for v in t]}
+
+
+def continuation_of(grid, prev):
+    """Shift ``grid`` so that it starts exactly where ``prev`` ends (a restart / continuation run)."""
+    t = np.asarray(grid["t"], dtype=float)
+    t = t - t[0] + float(prev["t"][-1])
+    out = dict(grid)
+    out["t"] = [float(v) for v in t]
+    out["family"] = grid["family"] + "+continuation"
+    out.pop("dtype", None)
+    return out
 
 
 def other_length_variant(rng, grid, lattice=False, nmax=40):
